@@ -633,7 +633,7 @@ Definition run_set (dollar : bool) (os : list sop) : tr :=
      if crashed then L []
      else elist (fun t => if iter_ok (TDict t) then elist epath (paths t) else L [I (-2)%Z]) regs].
 
-Definition run (c : tr) : tr :=
+Definition run_kp (c : tr) : tr :=
   match c with
   | L [I 0%Z; pr; p] =>
       match dbool pr, dpath p with
